@@ -39,6 +39,7 @@ func (dc *dataChunk) Clear() error {
 	dc.gcbufsize = 0
 	dc.writingHead = 0
 
+	verifPoint("fs.remove", dc.path)
 	return utils.Remove(dc.path)
 }
 
@@ -177,8 +178,10 @@ func (dc *dataChunk) Truncate(size uint32) error {
 	}
 	logger.Infof("truncate %s %d to %d", path, st.Size(), size)
 	if size == 0 {
+		verifPoint("fs.remove", path)
 		return utils.Remove(path)
 	}
+	verifPoint("fs.truncate", path, int64(size))
 	return os.Truncate(path, int64(size))
 }
 
